@@ -81,6 +81,11 @@ CLAIMS = {
             "input, no event class silently skipped, the single dedup map parked only when empty and never used after hand-off, every "
             "dependent triggered, a capacity-1 non-blocking reconcile signal raised from every source, destroy-ready filter bookkeeping, the "
             "queue routing table and the start-up listing of primaries.", "§3 C05"),
+    "C06": ("declared-input table checks + path-cut bookkeeping rules + error-use and conflict-scope checks (necessary structure only)",
+            "Convergence is NOT decided. Decides what convergence depends on: the feedback inputs are declared, outputs are marked touched "
+            "before being written, cleanup reaches every untouched or tearing-down owned output, finalizer release does not depend on an "
+            "output being destroyed in the same cycle, runtime errors are never dropped, conflict-skips are scoped to the primary output, and "
+            "a failed cycle is returned as an error so that the runtime retries it.", "§3 C06"),
     "C07": ("path-cut (must-precede) analysis on go/ssa control-flow graphs",
             "Decides, for every path of every generic controller's reconcile code, the write-order clauses of the property "
             "(finalizer before output, destroy only when ready/empty, finalizer released only after destroy/handler success) "
